@@ -353,6 +353,22 @@ def run(c, facts, tier):
         ok = all(x["cut"] for x in fr[: lastkept + 1])
         c.ob("C05.cut", a.site, a.lit, ok, "blank and argument after %r are %s" % (a.lit, "under cut_err" if ok else "not all under cut_err: a bad argument can fall through to another alternative"))
 
+    # ------------------------------------------------------------ C05.shape: nothing but parser applications in parser functions
+    nshape = 0
+    for key, fn in sorted(facts.fns.items()):
+        if fn.test or fn.module[:1] != ("find_parser",) or not F.norm_ty(fn.node["output"]).startswith("PResult<"):
+            continue
+        if key == an.role("parse_inner"):
+            continue  # the inner parse function is imperative; its statements are checked one by one by C06.empty / C13.*
+        fb = b.fn_ir(key)
+        nshape += 1
+        extra = [src(x)[:70] for x in fb.get("unknown", [])]
+        # pure lets are allowed only when every bound name is used solely to compute the returned value
+        lets = [src(x)[:70] for x in fb.get("lets", [])]
+        opq = [o.get("src", "")[:50] for o in g.opaque_nodes(fb, follow=False)]
+        ok = not extra and not opq
+        c.ob("C05.shape", key, "body is a composition of modelled parsers", ok if ok else None, "unrecognised statements %s; unmodelled parser expressions %s; value-level lets %s" % (extra, opq, lets), nontrivial=False)
+    c.floor("parser functions", nshape, 25)
     # ------------------------------------------------------------ C05.arg-lang
     arg_lang(c, facts, b, g, spec, scope, prim)
     c.floor("keyword alternatives", len(prim), 56)
@@ -409,6 +425,13 @@ def arg_lang(c, facts, b, g, spec, scope, prim):
         c.ob("C05.arg-lang", n["fn"], "same operand parser under every sign %s" % inst, len(same) == 1 and all(cs["into"]), "operand parsers %s; value passed through unchanged: %s" % (sorted(same), cs["into"]))
     c.analysed["comparison_instances"] = ncmp
 
+    # the default-unit wrappers hand their TimeSpec over unchanged
+    for key, fn in sorted(facts.fns.items()):
+        if fn.test or fn.name != "into" or fn.impl is None or "Into<" not in (fn.impl.get("trait") or ""):
+            continue
+        t = rx.tail_expr(fn.body)
+        ok = t is not None and len(fn.body["stmts"]) == 1 and t["k"] == "field" and rx.is_var(t["e"], "self") and t["name"] == "0"
+        c.ob("C05.arg-lang", key, "conversion is the identity on the wrapped value", ok, "into() = `%s`" % (src(t) if t is not None else "?"))
     # 2. unit tables (Size, TimeSpec), file types
     def unit_rule(tyname, want_table, want_default, label):
         found = None
